@@ -95,10 +95,53 @@ def process_logger_is_destroyed_at_exit(ctx):
               "logger Log::init created, so on a normal exit the lines still queued for the flusher thread are lost (accepted, not counted as dropped, never written)" % why)
 
 
+def silencing_is_bracketed(ctx):
+    """'Silencing affects only the calling thread, for the bracketed plugin call': wherever oomd's own code writes LogStream::Control::DISABLE,
+    the matching ENABLE is written on every path before the function is left (returns included - an early return between the two leaves
+    the thread silenced, and every later line of that thread, engine lines of other rulesets included, is dropped)."""
+    P, cg = ctx.prog, ctx.cg
+    n = 0
+    for f in sorted(P.fns.values(), key=lambda x: (x.file, x.line, x.usr)):
+        if not f.file.startswith("oomd/") or f.file.endswith("Test.cpp") or f.pq.startswith("Oomd::LogStream"):
+            continue
+        sites = {"DISABLE": [], "ENABLE": []}
+        for i, nd in enumerate(f.nodes):
+            if nd.get("k") == "ref" and nd.get("dk") == "enumconst" and nd.get("qname") in ("Oomd::LogStream::Control::DISABLE", "Oomd::LogStream::Control::ENABLE"):
+                x = i
+                while x is not None and not (f.nodes[x]["k"] == "call" and f.nodes[x].get("op") == "<<" and f.pos_of(x) is not None):
+                    x = f.parent.get(x)
+                if x is not None:
+                    sites[nd["name"]].append(x)
+        if not sites["DISABLE"]:
+            continue
+        n += 1
+        ctx.use(f)
+        ev = {}
+        for x in sites["DISABLE"]:
+            ev.setdefault(x, []).append(("set", "silenced"))
+        for x in sites["ENABLE"]:
+            ev.setdefault(x, []).append(("clear", "silenced"))
+        # DISABLE and ENABLE usually sit under the same test (`if (silenced & PLUGINS)`), evaluated twice: the paths are kept apart by it
+        f0 = Flow(P, f, cg=cg)
+        keys = {k for x in sites["DISABLE"] + sites["ENABLE"] for k, p_ in f0.guards(x) if isinstance(k, str) and not is_loop_control_fact(k)}
+        fl = Flow(P, f, events=ev, cg=cg, split=lambda k: k in keys)
+        bad = []
+        for kind, node, b, parts in fl.exits():
+            if kind in ("return", "fallthrough") and any("silenced" in st.may for st in parts.values()):
+                bad.append(f.loc(node) if node is not None else "end of function")
+        ctx.check(not bad, "silencing-is-bracketed:%s" % short(f), "must_follow (set/clear tokens on all exits)", f.loc(sites["DISABLE"][0]),
+                  "every DISABLE in %s is followed by ENABLE before the function is left" % short(f),
+                  "%s can be left at %s with logging still disabled for the calling thread (DISABLE written, no ENABLE on that path): every later line of that "
+                  "thread is dropped until some other silenced call happens to re-enable it" % (f.pq, ", ".join(sorted(set(bad))[:3])), witness_path(f, fl, sites["DISABLE"][0]))
+    ctx.counters["silencing_functions"] = n
+    ctx.floor("silencing_functions", 2, "functions that write LogStream::Control::DISABLE (DetectorGroup::check, Ruleset::run_action_chain)")
+
+
 def run(ctx):
     # locals / parameters the rules below refer to by name (a rename makes the analysis 'broken', never a violation)
     P, cg = ctx.prog, ctx.cg
     nothing_logs_before_log_init(ctx)
+    silencing_is_bracketed(ctx)
     process_logger_is_destroyed_at_exit(ctx)
     LA = LockAnalysis(P, cg)
     dbg = ctx.fn1("Oomd::Log::debugLog")
